@@ -178,6 +178,12 @@ def domain_strings(tier, rng):
             out.append(b"a" + b"-" * (n - 2) + b"a" + b".com")
             out.append(b"a" * (n - 1) + b"-b.com")
             out.append(b"1" * n + b".com")
+    # as many labels as a name can have: 127 one-octet labels are 253 octets; 126, 127, 128 labels, with and without root dot, digits too
+    for nl in (63, 64, 65, 125, 126, 127, 128, 129):
+        for lab in (b"x", b"7", b"a-b"[:1]):
+            name = b".".join([lab] * nl)
+            out += [name, name + b".", b"ab." + b".".join([lab] * (nl - 1)), name[:-1] + b"com"]
+    out += [b".".join([b"xy"] * 84) + b".a", b".".join([b"xy"] * 85), b".".join([b"x", b"yz"] * 50) + b".abc"]
     for total in range(236, 264):
         for root in (b"", b".", b".."):
             # labels of 50 + a last label that brings the total to `total`
@@ -269,7 +275,9 @@ def literal_domains(tier, rng):
               b"2001:db8::1:1:1:1:1", b"1:2:3:4:5:6:7::", b"::2:3:4:5:6:7:8", b"1::3:4:5:6:7:8", b"abcd:ef01:2345:6789:abcd:ef01:2345:6789",
               b"1:2:3:4:5:6:7:8:9", b"12345::", b"g::", b":::", b"1:::2", b"1::2::3", b"::0.1.2.3", b"1:2:3:4:5:6:7:1.2.3.4",
               b"::ffff:10.10.10.4294967297", b"::10.10.10.3000000000", b"1:2:3:4:5:6:10.4294967306.1.1", b"::ffff:10.10.10.18446744073709551617"]
-    tags = [b"", b"IPv6:", b"ipv6:", b"IPV6:", b"IPv4:", b"IPv6", b"x:", b"foo:", b"IPv6::", b"IPv6: ", b":"]
+    tags = [b"", b"IPv6:", b"ipv6:", b"IPV6:", b"IPv4:", b"IPv6", b"x:", b"foo:", b"IPv6::", b"IPv6: ", b":",
+            # a tag is written once: repeated and nested tags in every letter case
+            b"IPv6:IPv6:", b"ipv6:IPV6:", b"IPv6:ipv6:", b"IPv6:IPv4:", b"IPv4:IPv6:", b"IPv6:IPv6:IPv6:"]
     trailers = [b"", b"x", b"]", b" ", b":", b".com", b"]x"]
     for tag in tags:
         for a in addrs4 + addrs6:
@@ -356,6 +364,8 @@ def special_domains(tier, rng):
                     out.append(b"b" * k + b"." + b"a" * n + b"." + cp)
                     out.append(b"c." + b"b" * k + b"." + b"a" * n + b"." + cp)
             out.append(b"example." + cp)
+            # labels with '_' further left (host names only in a LABELS_ALLOW_UNDERSCORE build; the reserved suffix is what counts)
+            out += [b"old_days." + cp, b"_dmarc.mail." + cp, b"x_y." + cp, b"a.b_." + cp]
             out.append(b"1234567." + cp)
             out.append(b"a-b-c-d." + cp)
     return out
